@@ -1478,7 +1478,7 @@ def c15(ctx: Ctx) -> None:
     from .common import rule_unbound
     rule_unbound(ctx, 'C15-U1', [p.func(FILE, n_) for n_ in ('threadsafe_async_cache', 'buffer_until_timeout', 'async_background_batcher')], 'the option decorators')
     ctx.trusted += ['functools.partial', 'WeakKeyDictionary']
-    ctx.rule('C15-R1', 'the partial returned for `func is None` re-binds exactly the keyword-only options, each to the same-named parameter', 3)
+    ctx.rule('C15-R1', 'the partial returned for `func is None` re-binds exactly the keyword-only options, each to the same-named parameter', 1)
     ctx.rule('C15-R2', 'every option reaches its point of use in the direct form (def-use chains)', 6)
     ctx.rule('C15-R3', 'per-loop registry: keyed by get_running_loop() of the same activation, WeakKeyDictionary, built with all options and stored before use, no suspension between miss and store, no other registry mutation', 1)
     ctx.rule('C15-R4', 'the option decorators share one idiom', 1)
@@ -1499,6 +1499,10 @@ def c15(ctx: Ctx) -> None:
                 ctx.violation('C15-R4', f'{d.name}: no `{first} is None` branch', f'{FILE}:{d.lineno}',
                               'the decorator-with-options form is not supported any more',
                               construct=construct_key(d.qualname, 'no option form'))
+            else:
+                ctx.violation('C15-R1', f'{d.name}: a partial is built but no test of `{first} is None` decides between the two forms', f'{FILE}:{d.lineno}',
+                              'one of the two forms is unreachable: either @deco(options) never returns a decorator, or deco(func, options) never wraps',
+                              construct=construct_key(d.qualname, 'forms not separated'))
             continue
         # the test that separates the two forms: the one whose "no function given" edge leads to a return that its other edge
         # cannot reach (an argument check `if func is not None and not callable(func): raise` tests the same thing but returns nothing)
@@ -1510,6 +1514,10 @@ def c15(ctx: Ctx) -> None:
                     and find_path(g, [], [n], start_edges=[e for e in g.succ[b_.id] if e.label != lab_]) is None]
         br = sorted(br, key=lambda b_: 0 if _rets_of(b_) else 1)
         rets = _rets_of(br[0])
+        if not rets:
+            ctx.violation('C15-R1', f'{d.name}: the `{first} is None` edge returns nothing of its own', g.loc(br[0]),
+                          'the options form falls through into the direct form with func = None (or returns None): @deco(options) is unusable',
+                          construct=construct_key(d.qualname, 'option form returns nothing'))
         for rn in rets:
             v = rn.ast.value
             if not (isinstance(v, ast.Call) and (g.res.path(v.func) or '') == 'functools.partial'):
